@@ -85,6 +85,15 @@ CLAIMS = {
              "violation when a kernel certifies the asserted literals inconsistent. Partial: consistency verdicts are only "
              "refuted, not confirmed; the array solver is not driven.",
         design_ref="5 C22"),
+    "C23": dict(
+        technique="Lean 4 proof (the pseudo-random generator is a pure function of the seed with state in [1, m-1] and draws below the size) tied by a mirror of common/Random.h and by repeated runs of the executable with address-space randomisation on and off - partial",
+        text="PARTIAL: reproducibility of whole runs is compared, not proved. Theorems: the generator's state never leaves "
+             "[1, 2^31-2] (never 0), draws stay below the requested size, the stream is a function of the seed. Tie: "
+             "Random.h's drand/irand against the Lean mirror on thousands of seeds and sizes (identical state and draw "
+             "sequences, which also shows the double arithmetic exact there); every generated script x option vector "
+             "(seeds, engines, models, cores, proofs, interpolants, non-incremental) is run three times - ASLR on, on, off "
+             "(setarch -R) - and standard output and exit status must be byte-identical.",
+        design_ref="5 C23"),
     "C28": dict(
         technique="Lean 4 proof (hash-consed store: interning is idempotent, identities are stable and injective, arguments are older, commutative symbols order-insensitive) tied by differential construction sequences through the Logic API",
         text="Theorems over every store reachable from the empty one and every node: building a node twice returns the same "
